@@ -16,7 +16,7 @@ CHECKS = {
 NOT_APPLICABLE = {
 }
 
-HOOK_COMMITS = []
+HOOK_COMMITS = ["94c338b", "1766555", "6478eda", "55fbb5c", "2cfcb93"]
 
 def main():
     checks = []
